@@ -1,25 +1,550 @@
-//! C22 — not built yet (stub).
+//! C22 — completion suggestions are consistent with the term dictionary.
+//!
+//! One case = schema (text field `body` with one of three analyzers + keyword field `tag`),
+//! a corpus, 2–3 segment layouts of the same corpus (one commit = one segment, unique ids, no
+//! deletions) and a handful of completion requests (prefix / fuzzy).
+//!
+//! Oracle dictionary: every document is analysed with the REAL analyzers
+//! (`Schema::build_analyzers`), giving term → set of documents; per layout that yields the
+//! per-segment dictionaries `(term, df)` which are the model's input.
+//!
+//! Finder (implementation alone): ≤ size, sorted by (score desc, text asc) on the returned
+//! scores, texts distinct, every option an indexed term with the analysed prefix / within
+//! `max_edits` (own Levenshtein over chars) sharing the first `prefix_length` chars; while fewer
+//! distinct terms than the scan cap match: `doc_freq` = number of documents containing the term
+//! and identical options across layouts; same request twice = same answer.
+//! Correspondence: `SL.Suggest.suggest` on the oracle dictionaries vs the implementation
+//! (texts, doc_freq exact; scores ×6 with tolerance; neighbours with model-equal scores may swap
+//! in fuzzy mode only).
+use crate::idx;
 use crate::proto::Driver;
 use crate::rng::Rng;
 use crate::summary::Summary;
+use crate::util::scratch;
 use crate::{Prop, Tier};
+use searchlite_core::Schema;
 use serde_json::{json, Value};
+use std::collections::{BTreeMap, BTreeSet};
 
-pub struct Stub;
-pub static P: Stub = Stub;
+pub struct C22;
+pub static P: C22 = C22;
 
-impl Prop for Stub {
+const TOL: f64 = 2e-5;
+const DEFAULT_SUGGEST_SCAN: usize = 64;
+const MAX_SUGGEST_CANDIDATES: usize = 256;
+
+fn schema_json(kind: u64) -> Value {
+  let (analyzers, analyzer) = match kind {
+    1 => (json!([{"name": "en", "tokenizer": "default", "filters": ["lowercase", {"stemmer": "english"}]}]), "en"),
+    2 => (json!([{"name": "ws", "tokenizer": "whitespace", "filters": ["lowercase"]}]), "ws"),
+    _ => (json!([]), "default"),
+  };
+  json!({
+    "doc_id_field": "_id",
+    "analyzers": analyzers,
+    "text_fields": [{"name": "body", "analyzer": analyzer, "stored": true, "indexed": true}],
+    "keyword_fields": [{"name": "tag", "stored": true, "indexed": true, "fast": false}],
+    "numeric_fields": []
+  })
+}
+
+/// syllable vocabulary with many shared prefixes and near neighbours, some non-ASCII
+const SYL: [&str; 12] = ["ru", "ra", "st", "s", "t", "b", "by", "é", "ü", "日", "本", "a"];
+
+fn word(rng: &mut Rng) -> String {
+  let n = 1 + rng.below(4);
+  let mut w = String::new();
+  for _ in 0..n {
+    // bias towards the first syllables so that prefixes are shared
+    let k = if rng.chance(2, 3) { rng.below(5) } else { rng.below(SYL.len()) };
+    w.push_str(SYL[k]);
+  }
+  w
+}
+
+fn mixed_case(rng: &mut Rng, w: &str) -> String {
+  if rng.chance(1, 5) {
+    w.chars().enumerate().map(|(i, c)| if i == 0 { c.to_uppercase().next().unwrap_or(c) } else { c }).collect()
+  } else {
+    w.to_string()
+  }
+}
+
+fn lev(a: &[char], b: &[char]) -> usize {
+  let mut prev: Vec<usize> = (0..=b.len()).collect();
+  for i in 0..a.len() {
+    let mut cur = vec![i + 1; b.len() + 1];
+    for j in 0..b.len() {
+      let c = if a[i] == b[j] { 0 } else { 1 };
+      cur[j + 1] = (prev[j + 1] + 1).min(cur[j] + 1).min(prev[j] + c);
+    }
+    prev = cur;
+  }
+  prev[b.len()]
+}
+
+struct Req {
+  field: String,
+  prefix: String,
+  size: usize,
+  fuzzy: Option<(usize, usize, usize, usize)>, // max_edits, prefix_length, max_expansions, min_length
+}
+
+fn parse_req(v: &Value) -> Req {
+  Req {
+    field: v["field"].as_str().unwrap_or("body").to_string(),
+    prefix: v["prefix"].as_str().unwrap_or("").to_string(),
+    size: v["size"].as_u64().unwrap_or(5) as usize,
+    fuzzy: v.get("fuzzy").filter(|f| !f.is_null()).map(|f| {
+      (
+        f["max_edits"].as_u64().unwrap_or(1) as usize,
+        f["prefix_length"].as_u64().unwrap_or(1) as usize,
+        f["max_expansions"].as_u64().unwrap_or(50) as usize,
+        f["min_length"].as_u64().unwrap_or(3) as usize,
+      )
+    }),
+  }
+}
+
+fn suggest_json(r: &Req) -> Value {
+  let mut o = json!({"type": "completion", "field": r.field, "prefix": r.prefix, "size": r.size});
+  if let Some((me, pl, mx, ml)) = r.fuzzy {
+    o["fuzzy"] = json!({"max_edits": me, "prefix_length": pl, "max_expansions": mx, "min_length": ml});
+  }
+  o
+}
+
+/// the analysed prefix: last token of the search analyzer, else the raw prefix (text fields);
+/// ASCII-lowercased prefix (keyword fields)
+fn analysed_input(schema: &Schema, r: &Req) -> Result<String, String> {
+  if r.field == "tag" {
+    return Ok(r.prefix.to_ascii_lowercase());
+  }
+  let an = schema.build_analyzers().map_err(|e| e.to_string())?;
+  let a = an.search_analyzer(&r.field).ok_or("no search analyzer")?;
+  Ok(a.analyze(&r.prefix).last().map(|t| t.text.clone()).unwrap_or_else(|| r.prefix.clone()))
+}
+
+/// per document: the set of indexed terms of `field`
+fn doc_terms(schema: &Schema, field: &str, docs: &[Value]) -> Result<Vec<BTreeSet<String>>, String> {
+  let an = schema.build_analyzers().map_err(|e| e.to_string())?;
+  let mut out = Vec::new();
+  for d in docs {
+    let mut set = BTreeSet::new();
+    if field == "tag" {
+      if let Some(s) = d["tag"].as_str() {
+        set.insert(s.to_ascii_lowercase());
+      }
+    } else {
+      let a = an.index_analyzer(field).ok_or("no index analyzer")?;
+      for t in a.analyze(d[field].as_str().unwrap_or("")) {
+        set.insert(t.text);
+      }
+    }
+    out.push(set);
+  }
+  Ok(out)
+}
+
+fn scan_cap(r: &Req) -> usize {
+  match r.fuzzy {
+    None => r.size.saturating_mul(5).clamp(DEFAULT_SUGGEST_SCAN, MAX_SUGGEST_CANDIDATES),
+    Some((_, _, mx, _)) => mx.min(MAX_SUGGEST_CANDIDATES).max(r.size),
+  }
+}
+
+/// the property's membership clause: starts with the analysed prefix, or (fuzzy) within
+/// `edits` of it sharing its first `prefix_length` characters
+fn member(r: &Req, input: &str, term: &str, edits: usize) -> bool {
+  if term.is_empty() {
+    return false;
+  }
+  match r.fuzzy {
+    None => term.starts_with(input),
+    Some((_, pl, _, _)) => {
+      let a: Vec<char> = input.chars().collect();
+      let b: Vec<char> = term.chars().collect();
+      let p = pl.min(a.len());
+      b.len() >= p && a[..p] == b[..p] && lev(&a, &b) <= edits
+    }
+  }
+}
+
+/// terms the scan can accept (the code caps `max_edits` at 2): what "terms that match" means
+/// when counting against the scan cap
+fn qualifies(r: &Req, input: &str, term: &str) -> bool {
+  member(r, input, term, r.fuzzy.map(|f| f.0.min(2)).unwrap_or(0))
+}
+
+#[derive(Clone, Debug, PartialEq)]
+struct Opt {
+  text: String,
+  score: f64,
+  df: u64,
+}
+
+fn options_of(resp: &Value, name: &str) -> Vec<Opt> {
+  resp["suggest"][name]["options"]
+    .as_array()
+    .map(|a| {
+      a.iter()
+        .map(|o| Opt { text: o["text"].as_str().unwrap_or("").to_string(), score: o["score"].as_f64().unwrap_or(f64::NAN), df: o["doc_freq"].as_u64().unwrap_or(u64::MAX) })
+        .collect()
+    })
+    .unwrap_or_default()
+}
+
+fn opts_json(o: &[Opt]) -> Value {
+  Value::Array(o.iter().map(|x| json!({"text": x.text, "score": x.score, "doc_freq": x.df})).collect())
+}
+
+/// two option lists agree up to float noise: same length, scores pairwise close, doc_freq equal
+/// per text, and texts equal position by position except inside runs of (nearly) equal scores
+fn equivalent(a: &[Opt], b: &[Opt], exact: bool) -> bool {
+  if exact {
+    return a == b;
+  }
+  if a.len() != b.len() {
+    return false;
+  }
+  for i in 0..a.len() {
+    if !idx::close(a[i].score, b[i].score, TOL) {
+      return false;
+    }
+  }
+  // runs of close scores in `a`
+  let mut i = 0;
+  while i < a.len() {
+    let mut j = i + 1;
+    while j < a.len() && idx::close(a[j].score, a[i].score, 4.0 * TOL) {
+      j += 1;
+    }
+    let last_run = j == a.len();
+    let sa: BTreeSet<(&str, u64)> = a[i..j].iter().map(|o| (o.text.as_str(), o.df)).collect();
+    let sb: BTreeSet<(&str, u64)> = b[i..j].iter().map(|o| (o.text.as_str(), o.df)).collect();
+    // the last run may be cut by `size`: members may differ there, but a shared text must
+    // carry the same doc_freq
+    if sa != sb && !last_run {
+      return false;
+    }
+    if last_run {
+      for x in a[i..j].iter() {
+        if let Some(y) = b[i..j].iter().find(|y| y.text == x.text) {
+          if y.df != x.df {
+            return false;
+          }
+        }
+      }
+    }
+    i = j;
+  }
+  true
+}
+
+impl Prop for C22 {
   fn id(&self) -> &'static str {
     "C22"
   }
   fn rule(&self) -> &'static str {
-    "stub"
+    "case = (schema with analyzer default | lowercase+english stemmer | whitespace+lowercase, corpus of 6..60 docs over a syllable vocabulary incl. non-ASCII and mixed case, 2..3 segment layouts of the same corpus with 1..4 commits each and shuffled document order, 6 completion requests: text or keyword field, prefix of a corpus word / two-word prefix / empty / unknown, size 1..12, fuzzy options in 1 of 2 requests with max_edits 0..3, prefix_length 0..2, max_expansions 0..60, min_length 0..4; every 6th case is dense: 25..75 distinct words, 40..100 documents of 6..13 words, so that the prefix-mode scan cap of >= 64 expansions is reached); one evaluation per (case, request); non-trivial when some layout has >= 2 segments and the implementation returned >= 1 option; distinct = distinct (case, request) JSON"
   }
-  fn count(&self, _tier: Tier) -> usize {
-    0
+  fn count(&self, tier: Tier) -> usize {
+    tier.pick(400, 12000)
   }
-  fn gen(&self, _rng: &mut Rng, _tier: Tier, _i: usize) -> Value {
-    json!(null)
+  fn gen(&self, rng: &mut Rng, _tier: Tier, i: usize) -> Value {
+    let kind = (i % 3) as u64;
+    // 1 case in 6 is "dense": many distinct words, long documents — every segment holds most
+    // of the vocabulary, so the prefix-mode scan cap (>= 64 expansions) comes into play
+    let dense = i % 6 == 5;
+    let vspan = if dense { 50 } else if rng.chance(1, 3) { 60 } else { 24 };
+    let nvocab = if dense { 25 + rng.below(vspan) } else { 4 + rng.below(vspan) };
+    let vocab: Vec<String> = (0..nvocab).map(|_| word(rng)).collect();
+    let dspan = if dense { 60 } else if rng.chance(1, 4) { 55 } else { 20 };
+    let ndocs = if dense { 40 + rng.below(dspan) } else { 6 + rng.below(dspan) };
+    let docs: Vec<Value> = (0..ndocs)
+      .map(|d| {
+        let n = if dense { 6 + rng.below(8) } else { 1 + rng.below(7) };
+        let ws: Vec<String> = (0..n).map(|_| { let w = rng.pick(&vocab).clone(); mixed_case(rng, &w) }).collect();
+        let sep = if rng.chance(1, 6) { ", " } else { " " };
+        let tag = { let w = rng.pick(&vocab).clone(); mixed_case(rng, &w) };
+        json!({"_id": format!("d{d}"), "body": ws.join(sep), "tag": tag})
+      })
+      .collect();
+    // layouts: partitions of a shuffled document order into 1..4 commits
+    let nlay = 2 + rng.below(2);
+    let mut layouts = Vec::new();
+    for l in 0..nlay {
+      let mut order: Vec<usize> = (0..ndocs).collect();
+      rng.shuffle(&mut order);
+      let nseg = if l == 0 { 1 } else { 2 + rng.below(3) };
+      let mut segs: Vec<Vec<usize>> = vec![Vec::new(); nseg];
+      for (k, d) in order.iter().enumerate() {
+        // every segment gets at least one document
+        let s = if k < nseg { k } else { rng.below(nseg) };
+        segs[s].push(*d);
+      }
+      layouts.push(segs);
+    }
+    let mut reqs = Vec::new();
+    for _ in 0..6 {
+      let field = if rng.chance(1, 5) { "tag" } else { "body" };
+      let w = rng.pick(&vocab).clone();
+      let chars: Vec<char> = w.chars().collect();
+      let prefix = match rng.below(10) {
+        0 => String::new(),
+        1 => {
+          let first = rng.pick(&vocab).clone();
+          let cut = rng.below(chars.len() + 1);
+          format!("{} {}", first, chars[..cut].iter().collect::<String>())
+        }
+        2 => "zq".to_string(),
+        3 => mixed_case(rng, &w),
+        4 => w.clone(),
+        _ => chars[..1 + rng.below(chars.len())].iter().collect::<String>(),
+      };
+      let size = if rng.chance(1, 12) { 0 } else { 1 + rng.below(12) };
+      let mut r = json!({"field": field, "prefix": prefix, "size": size});
+      if rng.chance(1, 2) {
+        let mx = match rng.below(15) { 0 => 0, 1 | 2 | 3 => 1 + rng.below(6), _ => 10 + rng.below(51) };
+        let me = if rng.chance(1, 10) { 0 } else { 1 + rng.below(3) };
+        let ml = if rng.chance(1, 4) { rng.below(5) } else { rng.below(2) };
+        r["fuzzy"] = json!({"max_edits": me, "prefix_length": rng.below(3), "max_expansions": mx, "min_length": ml});
+      }
+      reqs.push(r);
+    }
+    json!({"schema": schema_json(kind), "docs": docs, "layouts": layouts, "requests": reqs, "mem": i % 4 != 0})
   }
-  fn run_case(&self, _drv: &mut Driver, _case: &Value, _s: &mut Summary) {}
+
+  fn run_case(&self, drv: &mut Driver, case: &Value, s: &mut Summary) {
+    let only = case.get("only").and_then(|c| c.as_u64()).map(|c| c as usize);
+    let case = if only.is_some() { &case["case"] } else { case };
+    let schema = match idx::schema(&case["schema"]) {
+      Ok(x) => x,
+      Err(e) => {
+        s.notes.push(format!("C22 bad schema in case: {e}"));
+        return;
+      }
+    };
+    let docs: Vec<Value> = case["docs"].as_array().cloned().unwrap_or_default();
+    let layouts: Vec<Vec<Vec<usize>>> = serde_json::from_value(case["layouts"].clone()).unwrap_or_default();
+    let reqs: Vec<Req> = case["requests"].as_array().map(|a| a.iter().map(parse_req).collect()).unwrap_or_default();
+    let mem = case["mem"].as_bool().unwrap_or(true);
+
+    // ---- run the implementation: one index per layout, all requests in one search ----
+    let mut sug = serde_json::Map::new();
+    for (k, r) in reqs.iter().enumerate() {
+      sug.insert(format!("r{k}"), suggest_json(r));
+    }
+    let sreq = json!({"query": {"type": "match_all"}, "limit": 1, "suggest": Value::Object(sug)});
+    let mut responses: Vec<Value> = Vec::new();
+    let mut repeat_ok = true;
+    let mut dirs = Vec::new();
+    for lay in layouts.iter() {
+      let dir = scratch();
+      let built = (|| -> Result<Value, String> {
+        let index = idx::create(dir.path(), &case["schema"], mem)?;
+        for seg in lay.iter() {
+          let batch: Vec<Value> = seg.iter().map(|d| docs[*d].clone()).collect();
+          idx::add_commit(&index, &batch)?;
+        }
+        let reader = index.reader().map_err(|e| e.to_string())?;
+        if reader.segments.len() != lay.len() {
+          return Err(format!("expected {} segments, reader has {}", lay.len(), reader.segments.len()));
+        }
+        let a = idx::search(&reader, &sreq);
+        let b = idx::search(&reader, &sreq);
+        match (&a, &b) {
+          (idx::Outcome::Ok(x), idx::Outcome::Ok(y)) => {
+            if x["suggest"] != y["suggest"] {
+              repeat_ok = false;
+            }
+            Ok(x.clone())
+          }
+          _ => Err(format!("search: {}", a.to_json())),
+        }
+      })();
+      dirs.push(dir);
+      match built {
+        Ok(v) => responses.push(v),
+        Err(e) => {
+          s.fail("suggest.error", "building the index or the suggest request failed", case, json!(e));
+          return;
+        }
+      }
+    }
+    if !repeat_ok {
+      s.fail("suggest.nondeterministic", "the same request on the same reader gave two different suggestion lists", case, json!(null));
+    }
+
+    for (k, r) in reqs.iter().enumerate() {
+      if only.map(|o| o != k).unwrap_or(false) {
+        continue;
+      }
+      let sub = json!({"case": case, "only": k});
+      let name = format!("r{k}");
+      let input = match analysed_input(&schema, r) {
+        Ok(x) => x,
+        Err(e) => {
+          s.notes.push(format!("C22 analyser: {e}"));
+          continue;
+        }
+      };
+      let dterms = match doc_terms(&schema, &r.field, &docs) {
+        Ok(x) => x,
+        Err(e) => {
+          s.notes.push(format!("C22 analyser: {e}"));
+          continue;
+        }
+      };
+      // corpus-level truth: term -> number of documents containing it
+      let mut total: BTreeMap<String, u64> = BTreeMap::new();
+      for set in dterms.iter() {
+        for t in set {
+          *total.entry(t.clone()).or_insert(0) += 1;
+        }
+      }
+      let enabled = match r.fuzzy {
+        None => true,
+        Some((me, _, mx, ml)) => input.chars().count() >= ml && mx != 0 && me.min(2) != 0,
+      };
+      let matching: Vec<&String> = total.keys().filter(|t| qualifies(r, &input, t)).collect();
+      let cap = scan_cap(r);
+      let below_cap = matching.len() < cap;
+      let results: Vec<Vec<Opt>> = responses.iter().map(|v| options_of(v, &name)).collect();
+      let multi = layouts.iter().any(|l| l.len() >= 2);
+      s.case(&sub, multi && results.iter().any(|o| !o.is_empty()));
+      s.count(if r.fuzzy.is_some() { "mode_fuzzy" } else { "mode_prefix" });
+      s.count(if r.field == "tag" { "field_keyword" } else { "field_text" });
+      if !enabled {
+        s.count("fuzzy_disabled_by_options");
+      }
+      if results.iter().all(|o| o.is_empty()) {
+        s.count("no_options");
+      }
+      if !below_cap {
+        s.count("matching_terms_at_or_above_cap");
+      }
+      s.add("options_returned", results.iter().map(|o| o.len() as u64).sum());
+
+      // per layout: segment dictionaries and number of qualifying (segment, term) pairs
+      let mut seg_dicts: Vec<Vec<Vec<(String, u64)>>> = Vec::new();
+      let mut pairs: Vec<usize> = Vec::new();
+      for lay in layouts.iter() {
+        let mut ds = Vec::new();
+        let mut np = 0usize;
+        for seg in lay.iter() {
+          let mut m: BTreeMap<String, u64> = BTreeMap::new();
+          for d in seg {
+            for t in dterms[*d].iter() {
+              *m.entry(t.clone()).or_insert(0) += 1;
+            }
+          }
+          np += m.keys().filter(|t| qualifies(r, &input, t)).count();
+          ds.push(m.into_iter().collect::<Vec<_>>());
+        }
+        seg_dicts.push(ds);
+        pairs.push(if enabled { np } else { 0 });
+      }
+      if pairs.iter().any(|p| *p > cap) {
+        s.count("some_layout_pairs_above_cap");
+        if r.fuzzy.is_none() {
+          s.count("some_layout_pairs_above_cap_prefix_mode");
+        }
+        if below_cap {
+          s.count("pairs_above_cap_but_terms_below_cap");
+        }
+      }
+
+      // ---------------- finder: the property on the implementation alone ----------------
+      for (li, opts) in results.iter().enumerate() {
+        let obs = json!({"layout": li, "input": input, "options": opts_json(opts)});
+        if opts.len() > r.size {
+          s.fail("suggest.size", "more than `size` options returned", &sub, obs.clone());
+        }
+        for w in opts.windows(2) {
+          let ok = w[0].score > w[1].score || (w[0].score == w[1].score && w[0].text < w[1].text);
+          if !ok {
+            s.fail("suggest.order", "options not sorted by score descending then text ascending (or a text is repeated)", &sub, obs.clone());
+            break;
+          }
+        }
+        for o in opts.iter() {
+          let Some(n) = total.get(&o.text) else {
+            s.fail("suggest.not-indexed", "an option is not an indexed term of the field", &sub, obs.clone());
+            continue;
+          };
+          if !member(r, &input, &o.text, r.fuzzy.map(|f| f.0).unwrap_or(0)) {
+            let sig = if r.fuzzy.is_some() { "suggest.fuzzy-membership" } else { "suggest.prefix" };
+            s.fail(sig, "an option does not start with the analysed prefix / is not within max_edits sharing the first prefix_length characters", &sub, obs.clone());
+          }
+          if below_cap && o.df != *n {
+            if pairs[li] > cap {
+              s.fail(
+                "suggest.cap-counts-segment-pairs",
+                "doc_freq is smaller than the number of documents containing the term although fewer distinct terms than the scan cap match: the cap is consumed once per (segment, term)",
+                &sub,
+                json!({"layout": li, "input": input, "term": o.text, "doc_freq": o.df, "documents_containing_term": n, "matching_terms": matching.len(), "matching_segment_term_pairs": pairs[li], "scan_cap": cap}),
+              );
+            } else {
+              s.fail("suggest.doc-freq", "doc_freq differs from the number of documents containing the term (below the scan cap)", &sub, json!({"layout": li, "term": o.text, "doc_freq": o.df, "expected": n}));
+            }
+          }
+        }
+      }
+      if below_cap {
+        for li in 1..results.len() {
+          if !equivalent(&results[0], &results[li], r.fuzzy.is_none()) {
+            let obs = json!({"input": input, "layout_0": opts_json(&results[0]), "layout_n": li, "options_n": opts_json(&results[li]), "matching_terms": matching.len(), "pairs": pairs, "scan_cap": cap});
+            if pairs[0] > cap || pairs[li] > cap {
+              s.fail("suggest.cap-counts-segment-pairs", "options differ between two segment layouts of the same corpus although fewer distinct terms than the scan cap match: the cap is consumed once per (segment, term)", &sub, obs);
+            } else {
+              s.fail("suggest.layout", "options differ between two segment layouts of the same corpus (below the scan cap)", &sub, obs);
+            }
+          }
+        }
+      }
+
+      // ---------------- correspondence with the model ----------------
+      for (li, opts) in results.iter().enumerate() {
+        let segs_json: Vec<Value> = seg_dicts[li].iter().map(|d| Value::Array(d.iter().map(|(t, n)| json!([t, n])).collect())).collect();
+        let fz = match r.fuzzy {
+          None => Value::Null,
+          Some((me, pl, mx, ml)) => json!({"max_edits": me, "prefix_length": pl, "max_expansions": mx, "min_length": ml}),
+        };
+        let m = drv.call("C22", json!({"op": "suggest", "segs": segs_json, "input": input, "size": r.size, "fuzzy": fz}));
+        let imp = json!({"layout": li, "input": input, "options": opts_json(opts)});
+        if m["ok"] != json!(true) {
+          s.disagree("suggest.model-error", &sub, imp, m);
+          continue;
+        }
+        let mo: Vec<Opt> = m["options"].as_array().map(|a| a.iter().map(|o| Opt { text: o["text"].as_str().unwrap_or("").to_string(), score: o["score6"].as_f64().unwrap_or(f64::NAN) / 6.0, df: o["doc_freq"].as_u64().unwrap_or(u64::MAX) }).collect()).unwrap_or_default();
+        let all: BTreeMap<String, (f64, u64)> = m["all"].as_array().map(|a| a.iter().map(|o| (o["text"].as_str().unwrap_or("").to_string(), (o["score6"].as_f64().unwrap_or(f64::NAN) / 6.0, o["doc_freq"].as_u64().unwrap_or(u64::MAX)))).collect()).unwrap_or_default();
+        let mut ok = mo.len() == opts.len();
+        if ok {
+          for i in 0..opts.len() {
+            // the implementation's i-th option must be a model candidate with the model's
+            // doc_freq and score, and its score must equal the model's i-th score
+            match all.get(&opts[i].text) {
+              Some((sc, df)) => {
+                if *df != opts[i].df || !idx::close(*sc, opts[i].score, TOL) || !idx::close(mo[i].score, opts[i].score, TOL) {
+                  ok = false;
+                }
+              }
+              None => ok = false,
+            }
+            if opts[i].text != mo[i].text && r.fuzzy.is_none() {
+              ok = false;
+            }
+          }
+        }
+        if !ok {
+          s.disagree("suggest.options", &sub, imp, json!({"options": m["options"], "all": m["all"]}));
+        }
+      }
+    }
+    drop(dirs);
+  }
+  fn finish(&self, _tier: Tier, s: &mut Summary) {
+    s.notes.push("scores: the model carries 6*score exactly; the implementation accumulates f32 — compared with relative tolerance 2e-5".into());
+  }
 }
